@@ -23,11 +23,25 @@ EConfigs ==
     UNION {{[d |-> d, m |-> m, seed |-> seed, basis |-> b, npairs |-> np] :
                m \in (IF Level = 1 THEN {5} ELSE {4, 5, 7}), seed \in 1..(IF Level = 1 THEN 2 ELSE 4), np \in 1..3,
                b \in UNION {[1..p -> ModeCat(d)] : p \in 2..(IF Level = 1 THEN 2 ELSE 3)}} : d \in 1..2}
+\* trajectories of integer linear maps with complex eigenvalues (rotating dynamics: genuinely complex EDMD spectra, the
+\* order by distance to 1 differs from the order of the real parts); x_1 from the seed, x_{j+1} = A x_j
+RotMaps == <<<<<<1, -2>>, <<2, 1>>>>, <<<<0, -1>>, <<1, 0>>>>, <<<<1, -1>>, <<1, 0>>>>, <<<<2, -1>>, <<1, 1>>>>, <<<<0, -2>>, <<1, 1>>>>>>
+RECURSIVE TrajPoint(_, _, _)
+TrajPoint(A, x1, j) == IF j = 1 THEN x1
+                       ELSE LET y == TrajPoint(A, x1, j - 1) IN <<A[1][1] * y[1] + A[1][2] * y[2], A[2][1] * y[1] + A[2][2] * y[2]>>
+TrajData(a, seed, m) == LET x1 == <<1 + ((seed + SaltValue) % 2), ((seed + SaltValue) % 3) - 1>>
+                        IN  [i \in 1..2 |-> [j \in 1..m |-> TrajPoint(RotMaps[a], x1, j)[i]]]
+TrajBases == {<<<<Const(0), Id(0)>>, <<Const(1), Id(1)>>>>, <<<<Id(0), Id(1)>>, <<Const(0), Id(1)>>>>,
+              <<<<Const(0), Id(0), Id(1)>>, <<Const(0), Id(0)>>>>, <<<<Id(0), Id(1)>>, <<Id(0), Id(1)>>>>}
+TConfigs == {[d |-> 2, m |-> m, seed |-> seed, basis |-> b, npairs |-> np, traj |-> a] :
+                m \in (IF Level = 1 THEN {5} ELSE {4, 5, 6}), seed \in 1..(IF Level = 1 THEN 2 ELSE 4), np \in {1, 3},
+                b \in TrajBases, a \in 1..Len(RotMaps)}
 EIx(c) == c.d * 3 + c.m * 5 + c.seed * 7 + Len(c.basis) * 11 + Len(c.basis[1]) * 13 + c.basis[1][1].idx + c.npairs
-EInit == cfg \in {c \in EConfigs : EIx(c) % NShards = Shard} /\ out = <<>>
+EInit == cfg \in {c \in EConfigs \cup TConfigs : (EIx(c) + (IF "traj" \in DOMAIN c THEN c.traj ELSE 0)) % NShards = Shard} /\ out = <<>>
 EBuild ==
     /\ out = <<>>
-    /\ LET x == [i \in 1..cfg.d |-> [j \in 1..cfg.m |-> (((cfg.seed + SaltValue) * 11 + i * 5 + j * 3 + i * j * j) % 7) - 3]]
+    /\ LET x == IF "traj" \in DOMAIN cfg THEN TrajData(cfg.traj, cfg.seed, cfg.m)
+                ELSE [i \in 1..cfg.d |-> [j \in 1..cfg.m |-> (((cfg.seed + SaltValue) * 11 + i * 5 + j * 3 + i * j * j) % 7) - 3]]
        IN  out' = <<[x |-> x, leaves |-> LeavesGeneral(x, cfg.basis), pairs |-> SubSeq(Pairs(cfg.m), 1, cfg.npairs)]>>
     /\ UNCHANGED cfg
 ENext == EBuild
